@@ -310,22 +310,31 @@ def cfg_text(spec, consts, invs=(), view=None, post=None, props=(), action_const
     return "\n".join(t) + "\n"
 
 
+MAX_CHUNK_LINES = 60000   # TLC's disk state queue stores the level of a state in 16 bits: a branching trace spec (states spill to disk)
+                          # fails on behaviours of 65536 or more states, so one TLC call never gets more lines than this
+
+
 def validate_traces(run, module, consts, invs, trace_path, label, max_reject=4, spec="TSpec", chunk_runs=None):
-    """See _validate_traces; chunk_runs splits a long concatenated trace into pieces of that many runs per TLC call."""
+    """See _validate_traces; chunk_runs splits a long concatenated trace into pieces of at most that many runs (and at most
+    MAX_CHUNK_LINES lines) per TLC call."""
     if not chunk_runs:
         return _validate_traces(run, module, consts, invs, trace_path, label, max_reject, spec)
-    pieces, cur, seen = [], [], []
+    runs, last = [], None
     with open(trace_path) as f:
         for line in f:
             m = re.search(r'"run":\s*(\d+)', line)
-            rid = m.group(1) if m else None
-            if rid is not None and (not seen or seen[-1] != rid):
-                if rid not in seen:
-                    seen.append(rid)
-                    if len(seen) > 1 and (len(seen) - 1) % chunk_runs == 0:
-                        pieces.append(cur)
-                        cur = []
-            cur.append(line)
+            rid = m.group(1) if m else last
+            if rid != last or not runs:
+                runs.append([])
+                last = rid
+            runs[-1].append(line)
+    pieces, cur, nr = [], [], 0
+    for r in runs:
+        if cur and (nr >= chunk_runs or len(cur) + len(r) > MAX_CHUNK_LINES):
+            pieces.append(cur)
+            cur, nr = [], 0
+        cur += r
+        nr += 1
     if cur:
         pieces.append(cur)
     out = []
@@ -336,8 +345,6 @@ def validate_traces(run, module, consts, invs, trace_path, label, max_reject=4, 
         out += _validate_traces(run, module, consts, invs, pth, "%s-%d" % (label, i), max_reject, spec)
         if len(out) >= max_reject:
             break
-    if os.path.exists(trace_path) and os.path.abspath(trace_path) != os.path.join(run.work, "trace.ndjson"):
-        pass
     return out
 
 
